@@ -13,17 +13,20 @@
 (***************************************************************************)
 EXTENDS Cmap, Json
 
-CONSTANT NC           \* number of different contents
+CONSTANTS NC,         \* number of different contents
+          NoUnicode   \* TRUE: no Unicode subtable at all (old Macintosh-only / symbol fonts): the legacy fallback
 VARIABLES sel,        \* per key of the pool: 0 = absent, else the content id
           rec, done
 vars == <<sel, rec, done>>
 
 Pool == << <<0, 3, 0>>, <<0, 4, 0>>, <<1, 0, 0>>, <<1, 0, 2>>, <<3, 0, 0>>, <<3, 1, 0>>, <<3, 10, 0>> >>
 
-\* the subtable of key k with content c: probe code 0x41 -> glyph c
-ContentMap(c) == << <<60 + c, 7>>, <<65, c>>, <<66, c + 10>> >>
+\* the subtable of key k with content c: probe code 0x41 -> glyph c; codes >= 0x80 so that a Macintosh
+\* Roman subtable read as Mac Roman differs from the same subtable read as raw codes (access paths must agree)
+ContentMap(c) == << <<60 + c, 7>>, <<65, c>>, <<66, c + 10>>, <<128 + c, 30 + c>>, <<219, 40 + c>> >>
 SubWords(k, c) ==
   IF <<k[1], k[2]>> \in FullKeys THEN Enc12(ContentMap(c) \o << <<66000 + c, 20>> >>, k[3])
+  ELSE IF k[1] = 1 /\ c = 1 THEN Enc0(ContentMap(c), k[3])          \* byte encoding table under the Macintosh key
   ELSE IF c = 2 THEN Enc6(ContentMap(c), k[3])
   ELSE Build4(RefSegs(ContentMap(c)), k[3])
 
@@ -45,7 +48,9 @@ Record(order) ==
 
 Init == sel = <<>> /\ rec = <<>> /\ done = FALSE
 Choose == /\ ~done /\ Len(sel) < Len(Pool)
-          /\ \E c \in 0..NC : sel' = Append(sel, c)
+          /\ \E c \in 0..NC :
+               /\ (NoUnicode /\ <<Pool[Len(sel) + 1][1], Pool[Len(sel) + 1][2]>> \in FullKeys \cup BmpKeys) => c = 0
+               /\ sel' = Append(sel, c)
           /\ UNCHANGED <<rec, done>>
 Finish == /\ ~done /\ Len(sel) = Len(Pool)
           /\ \E o \in {"fwd", "rev"} : rec' = Record(o)
@@ -64,7 +69,8 @@ TableOK == done =>
                         /\ t[j][4] = WordsToBytes(rec.subs[j])
      /\ \A i, j \in 1..n : (t[i][5] = t[j][5]) <=> (rec.subs[i] = rec.subs[j])
      /\ \A j \in 1..n : LET w == rec.subs[j] IN
-                          CASE W(w, 0) = 4  -> WF4(w, rec.keys[j][3]) /\ Dec4(w, 65) = rec.keys[j][4]
+                          CASE W(w, 0) = 0  -> WF0(w, rec.keys[j][3]) /\ Dec0(w, 65) = rec.keys[j][4]
+                            [] W(w, 0) = 4  -> WF4(w, rec.keys[j][3]) /\ Dec4(w, 65) = rec.keys[j][4]
                             [] W(w, 0) = 6  -> WF6(w, rec.keys[j][3]) /\ Dec6(w, 65) = rec.keys[j][4]
                             [] W(w, 0) = 12 -> WF12(w, rec.keys[j][3]) /\ Dec12(w, 65) = rec.keys[j][4]
 \* full Unicode beats BMP beats legacy
